@@ -378,23 +378,24 @@ func vC11Families(tier string) []vFamily {
 		}
 	}
 	sort.Strings(allSizes)
-	med := []string{"1B", "S", "S+1", "2S", "5S", "17S", "65S"}
 	return []vFamily{
-		{Name: "pairs-all-sizes", Txs: all3, Groups: []string{"sep", "one"}, Depth: 2, Dups: true,
-			First: vAlpha("ABC", both, allSizes...), Rest: vAlpha("ABC", both, allSizes...)},
-		{Name: "triples-medium", Txs: all3, Groups: []string{"sep"}, Depth: 3, Dups: true,
-			First: vAlpha("ABC", both, med...), Rest: vAlpha("ABC", both, med...)},
-		{Name: "triples-free-grouping", Txs: []int{0, 2}, Groups: []string{"free"}, Depth: 3, Dups: true,
-			First: vAlphaFixed("AB", "S:1", "17S:0", "65S:1"), Rest: vAlphaFixed("AB", "S:1", "17S:0", "65S:1")},
-		{Name: "quads", Txs: all3, Groups: []string{"sep"}, Depth: 4, Dups: true,
-			First: vAlphaFixed("AB", "S:0", "S+1:1", "17S:0", "65S:1"), Rest: vAlphaFixed("AB", "S:0", "S+1:1", "17S:0", "65S:1")},
-		{Name: "triples-wide", Txs: all3, Groups: []string{"one"}, Depth: 3, Dups: true,
-			First: vAlphaFixed("AB", "S:0", "65S:0", "129S:1", "257S:0"), Rest: vAlphaFixed("AB", "S:0", "65S:0", "129S:1", "257S:0")},
-		{Name: "quints", Txs: all3, Groups: []string{"sep"}, Depth: 5, Dups: true,
-			First: vAlphaFixed("AB", "S+1:1", "65S:0"), Rest: vAlphaFixed("AB", "S+1:1", "65S:0")},
 		{Name: "row-wider-than-a-padded-blob", Txs: all3, Groups: []string{"sep"}, Depth: 4,
 			Levels: [][]vBlobSpec{vAlphaFixed("C", "4100S:0"), append(vAlphaFixed("A", "S:0", "65S:1"), vAlphaFixed("B", "S:0")...),
 				vAlphaFixed("A", "65S:1", "S:0", "129S:0"), append(vAlphaFixed("A", "S:0", "1B:1"), vAlphaFixed("B", "S:1")...)}},
+		{Name: "triples-wide", Txs: both, Groups: []string{"one"}, Depth: 3, Dups: true,
+			First: vAlphaFixed("AB", "S:0", "65S:0", "129S:1", "257S:0"), Rest: vAlphaFixed("AB", "S:0", "65S:0", "129S:1", "257S:0")},
+		{Name: "triples-free-grouping", Txs: []int{0, 2}, Groups: []string{"free"}, Depth: 3, Dups: true,
+			First: vAlphaFixed("AB", "S:1", "17S:0", "65S:1"), Rest: vAlphaFixed("AB", "S:1", "17S:0", "65S:1")},
+		{Name: "quads", Txs: []int{1}, Groups: []string{"sep"}, Depth: 4, Dups: true,
+			First: vAlphaFixed("AB", "S:0", "S+1:1", "17S:0", "65S:1"), Rest: vAlphaFixed("AB", "S:0", "S+1:1", "17S:0", "65S:1")},
+		{Name: "quints", Txs: []int{0}, Groups: []string{"sep"}, Depth: 5, Dups: true,
+			First: vAlphaFixed("AB", "S+1:1", "65S:0"), Rest: vAlphaFixed("AB", "S+1:1", "65S:0")},
+		{Name: "pairs-all-sizes", Txs: all3, Groups: []string{"sep"}, Depth: 2, Dups: true,
+			First: vAlpha("B", both, allSizes...), Rest: vAlpha("ABC", both, allSizes...)},
+		{Name: "pairs-all-sizes-one-tx", Txs: []int{1}, Groups: []string{"one"}, Depth: 2, Dups: true,
+			First: vAlpha("B", both, allSizes...), Rest: vAlpha("ABC", both, allSizes...)},
+		{Name: "triples-medium", Txs: all3, Groups: []string{"sep"}, Depth: 3, Dups: true,
+			First: vAlphaFixed("ABC", "1B:1", "S:0", "S+1:1", "5S:0", "17S:1", "65S:0"), Rest: vAlphaFixed("ABC", "1B:1", "S:0", "S+1:1", "5S:0", "17S:1", "65S:0")},
 	}
 }
 
